@@ -410,6 +410,7 @@ int FSolver::StaticAxisymmetric(CBigLinProb &L)
                         return -7;
                     }
                     else t=Re(lua_tonumber(lua,-1));
+                    lua_pop(lua, 1);
                 }
             }
             for(j=0; j<3; j++)
